@@ -51,7 +51,7 @@ EmptyDr == [a  |-> [i \in Slots |-> "none"], l   |-> [i \in Slots |-> FALSE],
 VARIABLES phase,    \* program point of the puppet
           active,   \* REFERENCE: set of [loc, size, cond, via, scoped]
           rres,     \* REFERENCE: outcome of the last command
-          wps,      \* IMPL: registry, set of [loc, size, cond, via, scoped, reg]
+          wps,      \* IMPL: registry, set of [loc, size, cond, via, scoped, reg, pos]  (pos = index in the Vec)
           dr,       \* IMPL: [thread -> register image]
           live,     \* threads that exist
           last,     \* IMPL: last_seen_state, <<>> or <<image>>
@@ -80,6 +80,9 @@ SyncAll(img, lv) == [t \in Threads |-> IF t \in lv THEN img ELSE EmptyDr]
 RefRec(w) == [loc |-> w.loc, size |-> w.size, cond |-> w.cond, via |-> w.via, scoped |-> w.scoped]
 ActiveLocs == {w.loc : w \in active}
 WpOf(loc)  == CHOOSE w \in wps : w.loc = loc
+\* Vec::remove(idx): later entries move up
+Without(reg, w) == {[x EXCEPT !.pos = IF x.pos > w.pos THEN x.pos - 1 ELSE x.pos] : x \in reg \ {w}}
+First(reg) == CHOOSE x \in reg : \A y \in reg : x.pos <= y.pos
 
 Init == /\ phase = "P0" /\ active = {} /\ rres = "ok"
         /\ wps = {} /\ dr = [t \in Threads |-> EmptyDr] /\ live = {Main}
@@ -113,7 +116,7 @@ Add(loc, k) ==
         ELSE /\ ires' = "ok"
              /\ dr' = SyncAll(img, live) /\ last' = <<img>>
              /\ wps' = wps \cup {[loc |-> loc, size |-> k.size, cond |-> k.cond, via |-> k.via,
-                                  scoped |-> scoped, reg |-> i]}
+                                  scoped |-> scoped, reg |-> i, pos |-> Cardinality(wps) + 1]}
              /\ comp' = IF scoped THEN comp \cup {loc} ELSE comp
      /\ lastCmd' = Note([op |-> "add", loc |-> loc, size |-> k.size, cond |-> k.cond, via |-> k.via,
                          label |-> IF r = "ok" THEN "add_ok"
@@ -137,7 +140,7 @@ ImplRemove(loc) ==
   LET w   == WpOf(loc)
       img == DisableSlot(dr[Main], w.reg)
   IN /\ dr' = SyncAll(img, live) /\ last' = <<img>>
-     /\ wps' = wps \ {w}
+     /\ wps' = Without(wps, w)
      /\ comp' = comp \ {loc}
 
 Remove(how, loc) ==
@@ -180,7 +183,7 @@ RemoveAll(todo, img, acc) ==     \* acc = registry
   IF todo = {} THEN [img |-> img, wps |-> acc]
   ELSE LET loc == CHOOSE x \in todo : TRUE
            w   == CHOOSE x \in acc : x.loc = loc
-       IN RemoveAll(todo \ {loc}, DisableSlot(img, w.reg), acc \ {w})
+       IN RemoveAll(todo \ {loc}, DisableSlot(img, w.reg), Without(acc, w))
 
 ContScopeEnd ==
   /\ Bounded /\ phase = "P1"
@@ -237,9 +240,10 @@ ContExit ==
 RECURSIVE Refresh(_, _, _)
 Refresh(todo, img, acc) ==
   IF todo = {} THEN [img |-> img, wps |-> acc]
-  ELSE LET w == CHOOSE x \in todo : TRUE
+  ELSE LET w == First(todo)              \* registry order
            i == Min(FreeSlots(img))
-       IN Refresh(todo \ {w}, EnableSlot(img, i, w.loc, w.size, w.cond), acc \cup {[w EXCEPT !.reg = i]})
+       IN Refresh(todo \ {w}, EnableSlot(img, i, w.loc, w.size, w.cond),
+                  acc \cup {[w EXCEPT !.reg = i, !.pos = Cardinality(acc) + 1]})
 
 Restart ==
   /\ Bounded
